@@ -135,7 +135,7 @@ Proof.
       cbn [c93_text_values] in H. pose proof (c93_basic_index b) as BI.
       destruct (char_index b (firstn 43 c93_charset) 0) as [v|].
       + destruct (c93_text_values t) as [r|] eqn:Er; [|discriminate]. cbn [obind_opt] in H.
-        injection H as <-. destruct (IH t ltac:(simpl in Hn; lia) r Er) as (I1 & I2).
+        assert (vals = v :: r) as -> by congruence. destruct (IH t ltac:(simpl in Hn; lia) r Er) as (I1 & I2).
         repeat (apply andb_true_iff in BI as [BI ?]).
         match goal with X : zlist_eqb _ _ = true |- _ => apply zlist_eqb_eq in X; rename X into VT end.
         split; [constructor; [lia | exact I1]|].
@@ -144,7 +144,7 @@ Proof.
         destruct t as [|b1 t']; [discriminate|].
         destruct ((177 <=? b1) && (b1 <=? 180)) eqn:Er1; [|discriminate].
         destruct (c93_text_values t') as [r|] eqn:Er; [|discriminate]. cbn [obind_opt] in H.
-        injection H as <-. destruct (IH t' ltac:(simpl in Hn; lia) r Er) as (I1 & I2).
+        assert (vals = 43 + (b1 - 177) :: r) as -> by congruence. destruct (IH t' ltac:(simpl in Hn; lia) r Er) as (I1 & I2).
         split; [constructor; [lia | exact I1]|].
         unfold c93_values_text in *. cbn [flat_map]. rewrite I2. unfold c93_value_text.
         replace (43 + (b1 - 177) <? 43) with false by lia. cbn [app]. f_equal. f_equal. lia. }
@@ -162,7 +162,7 @@ Proof.
     cbn [app]. rewrite utf8_decode_2byte by lia. f_equal. lia.
 Qed.
 
-Lemma c93_decode_values vals rest : c93_vals_ok vals ->
+Lemma c93_runes_of_values vals rest : c93_vals_ok vals ->
   utf8_decode (c93_values_text vals ++ rest) = map c93_value_rune vals ++ utf8_decode rest.
 Proof.
   induction 1 as [|v vals Hv _ IH]; [reflexivity|].
@@ -202,7 +202,7 @@ Proof.
   - destruct (c93_value_facts v Hv) as (L & _). apply c93_lookup_of_mods in L as (d & L & _).
     rewrite L.
     replace (if i mod m + 1 + 1 >? m then 1 else i mod m + 1 + 1) with ((i + 1) mod m + 1)
-      by (destruct Hm; subst m; lia).
+      by (destruct (i mod m + 1 + 1 >? m) eqn:E; destruct Hm; subst m; lia).
     rewrite IH by lia. f_equal. ring.
 Qed.
 
@@ -210,7 +210,7 @@ Lemma c93_get_checksum_vals m vals : (m = 20 \/ m = 15) -> c93_vals_ok vals ->
   c93_get_checksum (c93_values_text vals) m = c93_value_rune (c93_check m vals).
 Proof.
   intros Hm H. unfold c93_get_checksum.
-  rewrite <- (app_nil_r (c93_values_text vals)), c93_decode_values by exact H.
+  rewrite <- (app_nil_r (c93_values_text vals)), c93_runes_of_values by exact H.
   rewrite utf8_decode_nil, app_nil_r. unfold rev'. rewrite <- rev_alt, <- map_rev.
   assert (c93_vals_ok (rev vals)) as Hr.
   { apply Forall_forall. intros v Hv. apply in_rev in Hv. eapply Forall_forall in H; eauto. }
@@ -289,12 +289,12 @@ Proof.
     pose proof (c93_check_range 20 vals). pose proof (c93_check_k_range vals). unfold c93_check_c.
     destruct cs; repeat constructor; lia. }
   cbn [app]. rewrite utf8_decode_ascii_cons by reflexivity.
-  rewrite c93_decode_values by exact Hmid.
+  rewrite c93_runes_of_values by exact Hmid.
   rewrite utf8_decode_ascii_cons, utf8_decode_nil by reflexivity.
   replace (42 :: map c93_value_rune mid ++ [42]) with (map c93_value_rune (c93_symbol cs vals)).
   - rewrite c93_draw_syms by (apply c93_symbol_ok; exact H). reflexivity.
   - unfold c93_symbol, c93_start_stop. rewrite !map_app. cbn [map app]. subst mid.
-    rewrite map_app. reflexivity.
+    rewrite map_app, <- app_assoc. reflexivity.
 Qed.
 
 (* ====================================================================== *)
@@ -316,7 +316,7 @@ Qed.
 Lemma c93_layout_length syms : Forall (fun v => 0 <= v < 48) syms ->
   (length syms < length (c93_layout syms))%nat.
 Proof.
-  unfold c93_layout. rewrite app_length. simpl length at 2.
+  unfold c93_layout. rewrite app_length. change (length [true]) with 1%nat.
   induction 1 as [|v t Hv _ IH]; simpl; [lia|].
   destruct (c93_symbol_facts v Hv) as (L & _). rewrite app_length, L. lia.
 Qed.
@@ -394,7 +394,7 @@ Proof.
   intros H. unfold c93_unspell.
   replace (map c93_value_char (flat_map c93_src_vals s))
     with (flat_map (fun b => map c93_value_char (c93_src_vals b)) s)
-    by (induction s as [|b t IH]; [reflexivity | cbn [flat_map]; rewrite map_app, IH; reflexivity]).
+    by (clear H; induction s as [|b t IH]; [reflexivity | cbn [flat_map]; rewrite map_app, IH; reflexivity]).
   apply fa_unspell_flat_map. intros b Hb. apply c93_ascii_facts. eapply forallb_forall in H; eauto.
 Qed.
 
